@@ -89,8 +89,15 @@ func (r *Report) Undecided(rule, key, pos, why string, witness ...string) *Oblig
 
 func (r *Report) Infof(format string, a ...any) { r.Info = append(r.Info, fmt.Sprintf(format, a...)) }
 
-// Floor asserts that at least n obligations of the rule were generated.
+// Floor asserts that the rule still matches about as many instances as were
+// confirmed by hand on the tree the tables were written against (n): a rule
+// that silently matches (almost) nothing passes vacuously.  A quarter of
+// slack is left for refactorings that merge instances (two writes moved into
+// one helper, two loops into one).
 func (r *Report) Floor(rule string, n int) {
+	if n > 1 {
+		n = (n*3 + 3) / 4
+	}
 	c := 0
 	for _, o := range r.Obls {
 		if o.Rule == rule {
